@@ -35,7 +35,7 @@ ALL = ["C%02d" % i for i in range(1, 20)]
 NA_REASON = {}
 na = [{"property_id": p, "reason": NA_REASON.get(p, "check not built yet at this commit (work in progress, see DESIGN.md §5)")} for p in ALL if p not in CHECKS]
 hooks = subprocess.run(["git", "-C", "/repo", "log", "--format=%H %s"], stdout=subprocess.PIPE, text=True).stdout.splitlines()
-hook_commits = [l.split()[0] for l in hooks if "verif hooks" in l]
+hook_commits = [l.split()[0] for l in hooks if "verif hooks" in l or l.split(" ", 1)[1].startswith("verif:")]
 M = {"version": 1, "setup_cmd": "python3 bin/vcheck.py --setup",
      "hooks": {"guard": "verif", "enable": "go test -tags verif plus a build overlay that injects /verif/checks/<engine>/*_test.go into the package under test (bin/vlib.py build()); the handler behind the hook points is installed by those test files",
                "baseline_off_cmd": "cd /repo && GOFLAGS=-mod=mod GOPROXY=off GOSUMDB=off GOTOOLCHAIN=local go test -json -vet=off -count=1 -timeout 25m ./...",
